@@ -6,11 +6,12 @@
    `states` maps every emitted message to its settlement sampled at that instant;
    times are microseconds.                                                        *)
 EXTENDS RouterCloseAbs, TraceBase
-VARIABLES nh, expectSub, timeout
-tvars == <<cvars, nh, expectSub, timeout, l>>
-TInit == CInit /\ nh = 0 /\ expectSub = FALSE /\ timeout = 0 /\ LInit
-K == UNCHANGED <<nh, expectSub, timeout>>
-TReset == /\ Is("reset") /\ nh' = Ev.nh /\ expectSub' = Ev.expectsubclose /\ timeout' = Ev.timeout
+\* np: handlers that have a publisher to close (a handler may be added with a nil Publisher)
+VARIABLES nh, np, expectSub, timeout
+tvars == <<cvars, nh, np, expectSub, timeout, l>>
+TInit == CInit /\ nh = 0 /\ np = 0 /\ expectSub = FALSE /\ timeout = 0 /\ LInit
+K == UNCHANGED <<nh, np, expectSub, timeout>>
+TReset == /\ Is("reset") /\ nh' = Ev.nh /\ np' = (IF Has("np") THEN Ev.np ELSE Ev.nh) /\ expectSub' = Ev.expectsubclose /\ timeout' = Ev.timeout
           /\ msg' = << >> /\ st' = << >> /\ closing' = FALSE /\ okClosed' = FALSE /\ timedOut' = FALSE
           /\ pend' = {} /\ subClosed' = 0 /\ pubClosed' = 0 /\ runRet' = FALSE /\ tcall' = << >> /\ lastRet' = 0 /\ Adv
 TEmit   == Is("emit") /\ Emit(Ev.m) /\ K /\ Adv
@@ -18,13 +19,13 @@ THStart == Is("hstart") /\ HStart(Ev.m) /\ K /\ Adv
 THEnd   == Is("hend") /\ HEnd(Ev.m) /\ K /\ Adv
 TCloseC == Is("closecall") /\ CloseCall(Ev.i, Ev.t) /\ K /\ Adv
 TCloseR == /\ Is("closeret")
-           /\ IF Ev.ok THEN CloseRetNil(Ev.i, Ev.states, Ev.t, timeout, nh) ELSE CloseRetErr(Ev.i, Ev.t, timeout)
+           /\ IF Ev.ok THEN CloseRetNil(Ev.i, Ev.states, Ev.t, timeout, np) ELSE CloseRetErr(Ev.i, Ev.t, timeout)
            /\ K /\ Adv
 TRunRet == Is("runret") /\ RunRet(Ev.states, Ev.t, timeout) /\ K /\ Adv
 TRunFail == Is("runfail") /\ RunFail /\ K /\ Adv
 TSubCl  == Is("subclose") /\ SubClose /\ K /\ Adv
 TPubCl  == Is("pubclose") /\ PubClose /\ K /\ Adv
-TQuiesce == Is("quiesce") /\ Quiescent(Ev.states, nh, expectSub) /\ UNCHANGED cvars /\ K /\ Adv
+TQuiesce == Is("quiesce") /\ Quiescent(Ev.states, nh, np, expectSub) /\ UNCHANGED cvars /\ K /\ Adv
 TNext == TReset \/ TEmit \/ THStart \/ THEnd \/ TCloseC \/ TCloseR \/ TRunRet \/ TRunFail \/ TSubCl \/ TPubCl \/ TQuiesce
 TSpec == TInit /\ [][TNext]_tvars
 =============================================================================
